@@ -445,11 +445,16 @@ void SGal3TangentBase<_Derived>::fillE(
   E.noalias() = I(Scalar(0.5), Scalar(0.5), Scalar(0.5)).toDenseMatrix();
 
   // small angle approx.
-  if (theta_sq * theta_sq < Constants<Scalar>::eps) {
-    // series 1/2 I + 1/6 W + 1/24 W^2 + ... ; (theta - sin theta)/theta^3 below has only a few
-    // correct digits for smaller angles and, unlike in SO3's Jacobians, multiplies W, not W^2
+  if (theta_sq * theta_sq * theta_sq * theta_sq < Constants<Scalar>::eps) {
+    // series of the two coefficients below, up to theta^6: (theta - sin theta)/theta^3 and
+    // (theta^2 + 2 cos theta - 2)/(2 theta^4) cancel catastrophically for small angles (the second
+    // one keeps no correct digit at theta ~ 4e-4) and, unlike in SO3's Jacobians, the first one
+    // multiplies W, not W^2. With the switch at theta^8 < eps both branches are accurate to
+    // working precision relative to the size of t * nu.
+    const Scalar A = Scalar(1. / 6.) - theta_sq * (Scalar(1. / 120.) - theta_sq * (Scalar(1. / 5040.) - theta_sq * Scalar(1. / 362880.)));
+    const Scalar B = Scalar(1. / 24.) - theta_sq * (Scalar(1. / 720.) - theta_sq * (Scalar(1. / 40320.) - theta_sq * Scalar(1. / 3628800.)));
     const typename SO3Tangent<Scalar>::LieAlg W = so3.hat();
-    E.noalias() += Scalar(1. / 6.) * W + Scalar(1. / 24.) * W * W;
+    E.noalias() += A * W + B * W * W;
     return;
   }
 
